@@ -48,6 +48,12 @@ def handler (cmd : String) : P String := do
     let n ← rat
     let e ← rat
     pure (showRat (RatioOfMeans.power_from_stats (Stubs.family fam) c v n e))
+  | "powerargs" =>
+    let c ← cfg
+    let a ← aggr
+    let coef := RatioOfMeans.covariate_coef c a
+    let cm := Aggr.mean a c.numer_covariate / Aggr.mean a c.denom_covariate
+    pure (showRats [RatioOfMeans.metric_mean c a coef cm, RatioOfMeans.metric_var c a coef])
   | "sr" =>
     let fam ← nat
     let c ← srcfg
